@@ -1,56 +1,118 @@
 ---- MODULE Breaker ----
 (* Circuit-breaker resources and active gauges of one cluster (pkg/upstream/cluster/resource_manager.go and
    every admission / release site: pools' NewStream / onStreamDestroy, proxy/retrystate.go), property C10.
-   A resource is `cur` with threshold `max` (0 = unlimited; the code then does not count at all, the
-   specification counts a ghost value so the invariant reads the same).  Every admission is tagged with the
-   request that holds it: the ghost set `holders` is the truth the counters must equal. *)
+   A resource is `cur` with threshold `max` (0 = unlimited: nothing is refused, but the admissions are counted all
+   the same - an update may switch the threshold on while they are outstanding).  Every admission is tagged with
+   the request that holds it: the ghost set `holders` is the truth the counters must equal.
+
+   Cluster configuration update (cluster_manager.go UpdateCluster with UpdateClusterResourceManagerHandler:
+   AddOrUpdatePrimaryCluster, AddOrUpdateClusterAndHost): the cluster object of a name is replaced while
+   requests are in flight.  The books are kept per resource-manager OBJECT (`reqBook[m]`, `retryBook[m]`);
+   `ex` is the object the cluster published under the name exposes - these are the books an admin, the next
+   request and the breaker read (reqCur, retryCur).  An admission is released on the object it was booked on
+   (`reqAt`, `retryAt`: the pool's host / the request's retry state keep the cluster info they started with).
+   Contract: an admission taken before an update is given back after it on the books the cluster THEN exposes,
+   the thresholds in force after the update are the updated ones, and the counters are zero when idle.  The
+   intended design achieves it by handing the old manager object to the new cluster and writing the new
+   thresholds into it (ex unchanged). *)
 EXTENDS Integers, FiniteSets, TLC
 
 CONSTANTS Reqs,      \* request ids
-          MaxReq,    \* max_requests threshold (0 = unlimited)
-          MaxRetry,  \* max_retries threshold (0 = unlimited)
-          Defects    \* {} | {"UnconditionalRetryRelease"} | {"LeakOnUpstreamReset"}
+          MaxReq,    \* max_requests threshold at the start (0 = unlimited)
+          MaxRetry,  \* max_retries threshold at the start (0 = unlimited)
+          Updates,   \* set of <<max_requests, max_retries>> a cluster update may bring
+          MaxUpd,    \* bound on the number of cluster updates
+          Defects    \* {} | {"UnconditionalRetryRelease"} | {"LeakOnUpstreamReset"} | {"UpdateCopiesCounters"}
+                     \*    | {"UncountedWhileUnlimited"}
 
 VARIABLES st,        \* req -> "idle" | "inflight" | "retrying" | "refused" | "done"
-          reqCur,    \* requests resource
-          retryCur,  \* retries resource
+          mreq,      \* max_requests in force
+          mretry,    \* max_retries in force
+          nupd,      \* cluster updates so far; manager objects 0..nupd exist
+          ex,        \* the manager object the published cluster exposes
+          reqBook,   \* manager object -> its requests counter
+          retryBook, \* manager object -> its retries counter
+          reqAt,     \* req -> manager object its unit of `requests` was booked on
+          retryAt,   \* req -> manager object its unit of `retries` was booked on
           holdReq,   \* ghost: requests holding a unit of `requests`
-          holdRetry  \* ghost: requests holding a unit of `retries`
-vars == <<st, reqCur, retryCur, holdReq, holdRetry>>
+          holdRetry, \* ghost: requests holding a unit of `retries`
+          tripOK     \* ghost: every admission decision so far agreed with the truth and the threshold in force
+vars == <<st, mreq, mretry, nupd, ex, reqBook, retryBook, reqAt, retryAt, holdReq, holdRetry, tripOK>>
+
+Mgrs == 0..MaxUpd
+reqCur   == reqBook[ex]       \* the books the cluster exposes
+retryCur == retryBook[ex]
 
 CanCreate(cur, max) == max = 0 \/ cur < 0 \/ cur < max
+(* defect UncountedWhileUnlimited: Increase/Decrease do nothing while the threshold is 0 (the code before 5ab5b615d) *)
+Counts(max) == "UncountedWhileUnlimited" \notin Defects \/ max # 0
 
-Init == st = [r \in Reqs |-> "idle"] /\ reqCur = 0 /\ retryCur = 0 /\ holdReq = {} /\ holdRetry = {}
+Init == /\ st = [r \in Reqs |-> "idle"] /\ mreq = MaxReq /\ mretry = MaxRetry /\ nupd = 0 /\ ex = 0
+        /\ reqBook = [m \in Mgrs |-> 0] /\ retryBook = [m \in Mgrs |-> 0]
+        /\ reqAt = [r \in Reqs |-> 0] /\ retryAt = [r \in Reqs |-> 0]
+        /\ holdReq = {} /\ holdRetry = {} /\ tripOK = TRUE
 
-(* pool admission: refused iff the threshold is reached *)
+(* pool admission: refused iff the threshold in force is reached *)
 Admit(r) == /\ st[r] \in {"idle", "retrying"}
-            /\ IF CanCreate(reqCur, MaxReq)
-               THEN st' = [st EXCEPT ![r] = "inflight"] /\ reqCur' = reqCur + 1 /\ holdReq' = holdReq \cup {r}
-               ELSE st' = [st EXCEPT ![r] = "refused"] /\ UNCHANGED <<reqCur, holdReq>>
-            /\ UNCHANGED <<retryCur, holdRetry>>
+            /\ IF CanCreate(reqCur, mreq)
+               THEN /\ st' = [st EXCEPT ![r] = "inflight"] /\ holdReq' = holdReq \cup {r}
+                    /\ reqBook' = IF Counts(mreq) THEN [reqBook EXCEPT ![ex] = @ + 1] ELSE reqBook
+                    /\ reqAt' = [reqAt EXCEPT ![r] = ex]
+               ELSE st' = [st EXCEPT ![r] = "refused"] /\ UNCHANGED <<reqBook, reqAt, holdReq>>
+            /\ tripOK' = (tripOK /\ (CanCreate(reqCur, mreq) <=> CanCreate(Cardinality(holdReq), mreq)))
+            /\ UNCHANGED <<mreq, mretry, nupd, ex, retryBook, retryAt, holdRetry>>
+
+RelRetry(r) == /\ retryBook' = IF Counts(mretry) THEN [retryBook EXCEPT ![retryAt[r]] = @ - 1] ELSE retryBook
+               /\ holdRetry' = holdRetry \ {r}
 
 (* the upstream stream ends (response, reset, timeout, client gone): exactly one release *)
 StreamEnd(r, retry) ==
   /\ st[r] = "inflight"
-  /\ IF "LeakOnUpstreamReset" \in Defects /\ retry THEN UNCHANGED <<reqCur, holdReq>>
-     ELSE reqCur' = reqCur - 1 /\ holdReq' = holdReq \ {r}
-  /\ IF retry /\ CanCreate(retryCur, MaxRetry) /\ r \notin holdRetry
-     THEN st' = [st EXCEPT ![r] = "retrying"] /\ retryCur' = retryCur + 1 /\ holdRetry' = holdRetry \cup {r}
-     ELSE /\ st' = [st EXCEPT ![r] = "done"]
+  /\ IF "LeakOnUpstreamReset" \in Defects /\ retry THEN UNCHANGED <<reqBook, holdReq>>
+     ELSE /\ reqBook' = IF Counts(mreq) THEN [reqBook EXCEPT ![reqAt[r]] = @ - 1] ELSE reqBook
+          /\ holdReq' = holdReq \ {r}
+  /\ IF retry /\ CanCreate(retryCur, mretry) /\ r \notin holdRetry
+     THEN /\ st' = [st EXCEPT ![r] = "retrying"] /\ holdRetry' = holdRetry \cup {r}
+          /\ retryBook' = IF Counts(mretry) THEN [retryBook EXCEPT ![ex] = @ + 1] ELSE retryBook
+          /\ retryAt' = [retryAt EXCEPT ![r] = ex]
+     ELSE /\ st' = [st EXCEPT ![r] = "done"] /\ UNCHANGED retryAt
           /\ IF r \in holdRetry \/ "UnconditionalRetryRelease" \in Defects
-             THEN retryCur' = retryCur - 1 /\ holdRetry' = holdRetry \ {r}
-             ELSE UNCHANGED <<retryCur, holdRetry>>
+             THEN RelRetry(r)
+             ELSE UNCHANGED <<retryBook, holdRetry>>
+  /\ tripOK' = (tripOK /\ (retry /\ r \notin holdRetry => (CanCreate(retryCur, mretry) <=> CanCreate(Cardinality(holdRetry), mretry))))
+  /\ UNCHANGED <<mreq, mretry, nupd, ex, reqAt>>
 
 RefusedEnd(r) == /\ st[r] = "refused" /\ st' = [st EXCEPT ![r] = "done"]
-                 /\ IF r \in holdRetry THEN retryCur' = retryCur - 1 /\ holdRetry' = holdRetry \ {r} ELSE UNCHANGED <<retryCur, holdRetry>>
-                 /\ UNCHANGED <<reqCur, holdReq>>
+                 /\ IF r \in holdRetry THEN RelRetry(r) ELSE UNCHANGED <<retryBook, holdRetry>>
+                 /\ UNCHANGED <<mreq, mretry, nupd, ex, reqBook, reqAt, retryAt, holdReq, tripOK>>
 
-Next == \E r \in Reqs : Admit(r) \/ RefusedEnd(r) \/ \E b \in BOOLEAN : StreamEnd(r, b)
+(* a cluster of the same name is published with thresholds t while requests may be in flight *)
+Update(t) ==
+  /\ nupd < MaxUpd /\ nupd' = nupd + 1
+  /\ mreq' = t[1] /\ mretry' = t[2]
+  /\ IF "UpdateCopiesCounters" \in Defects
+     THEN \* the new cluster keeps a manager object of its own; the counters of the old one are copied into it
+          /\ ex' = nupd + 1
+          /\ reqBook' = [reqBook EXCEPT ![nupd + 1] = reqBook[ex]]
+          /\ retryBook' = [retryBook EXCEPT ![nupd + 1] = retryBook[ex]]
+     ELSE \* the new cluster is given the old manager object, the new thresholds are written into it
+          UNCHANGED <<ex, reqBook, retryBook>>
+  /\ UNCHANGED <<st, reqAt, retryAt, holdReq, holdRetry, tripOK>>
+
+Next == \/ \E r \in Reqs : Admit(r) \/ RefusedEnd(r) \/ \E b \in BOOLEAN : StreamEnd(r, b)
+        \/ \E t \in Updates : Update(t)
 Spec == Init /\ [][Next]_vars
 
 (* ---- C10 ---- *)
 Conserved  == reqCur = Cardinality(holdReq) /\ retryCur = Cardinality(holdRetry)
 NonNeg     == reqCur >= 0 /\ retryCur >= 0
 IdleZero   == (\A r \in Reqs : st[r] \in {"idle", "done"}) => (reqCur = 0 /\ retryCur = 0)
-TripsExact == (MaxReq > 0 => reqCur <= MaxReq) /\ (MaxRetry > 0 => retryCur <= MaxRetry)
+(* breakers trip exactly at the threshold in force: never an admission at or above it, never a refusal below it
+   (after a lowering update the counter may exceed the threshold: nothing more is admitted until it has drained) *)
+TripsExact == tripOK
+
+(* update sets for the configuration files *)
+UpdNone    == {}
+UpdNonZero == {<<1, 1>>, <<2, 1>>, <<3, 2>>}              \* unchanged, lowered, raised thresholds
+UpdAny     == UpdNonZero \cup {<<0, 0>>}                    \* a threshold switched off / on as well
 ====
